@@ -230,7 +230,7 @@ func sweepPrograms(tier string) []program {
 		add(2, all)
 		add(3, gransNamed("vm", "fmt", "concat"))
 	} else {
-		q := gransNamed("vm", "fmt", "find", "load", "utf8", "match", "concat")
+		q := gransNamed("vm", "fmt", "load", "utf8", "match", "concat") // find = same charge pattern as fmt: depth <= 1 only
 		add(0, all)
 		add(1, all)
 		add(2, q)
